@@ -421,6 +421,10 @@ class ArgumentParser:
                 ):
                     default_value = kwargs.pop("default")
                     flag_name = option["flags"][0]
+                    # Copy the default, because custom actions may extend it
+                    # and the compiler definition is shared between commands.
+                    if isinstance(default_value, list):
+                        default_value = default_value.copy()
                     namespace._passes[flag_name] = default_value
             parser.add_argument(*option["flags"], **kwargs)
 
